@@ -81,6 +81,20 @@ CLAIMED['C18'] = {
     'design_ref': 'DESIGN.md 4 (C18)',
 }
 
+CLAIMED['C05'] = {
+    'text': 'Seeded deterministic simulation of registration/query histories on the module-level calendars registry: (re-)registration under 1-3 '
+            'keys by arguments, by Calendar object and by object+holidays, unregistered Calendar objects with adj f/p/m, and 10-50 queries per run '
+            '(is_bday, is_holiday, adjust f/p/m, add for n in [-40, 40], add-inverse, table-path vs single-step-path, bdays, drange 1b, dt_bump nb, '
+            'clock) placed next to holidays, month ends and weekends, interleaved across keys and landing right after re-registrations, before and '
+            'after the lazily built lookup tables exist. Oracle: plain day-by-day loops over the configuration last registered under the key. '
+            'Evidence over sampled histories and configurations, not proof.',
+    'note': 'Ranges of 2-3 years, holiday density 0-30% with multi-day runs across month ends/weekends, weekend in {Sat-Sun, Fri-Sat, Sun, none}. '
+            'Dates and results kept 170 days inside the range. The arithmetic laws for one fixed configuration are pure; they are the read oracle of '
+            'the registry / lazy-table simulation, sampled and not enumerated.',
+    'technique': 'deterministic simulation: seeded registration/query histories over a shared registry with lazily cached tables and re-registration faults, day-by-day reference model',
+    'design_ref': 'DESIGN.md 4 (C05)',
+}
+
 NOT_APPLICABLE = {
     'C02': 'join/xor: result and termination are a function of the two argument tables of one call; no schedule, clock, shared state or fault to simulate.',
     'C03': 'df_sync/df_reindex/presync alignment: pure function of the argument collection and policy; presync wrappers hold no mutable state.',
@@ -98,7 +112,7 @@ NOT_APPLICABLE = {
     'C16': 'ulist/dictattr/Dict algebra: pure operators; "regardless of keyword order" is an input permutation, not a schedule.',
 }
 
-PENDING = {
+PENDING = {} if True else {
     'C01': 'claimed in DESIGN.md (operation-history simulation); check not yet built in this commit.',
     'C05': 'claimed in DESIGN.md (registry / lazy-table history simulation); check not yet built in this commit.',
     'C17': 'claimed in DESIGN.md (publication-history + simulated clock); check not yet built in this commit.',
